@@ -376,7 +376,7 @@ class PointTensor(PointLikeTensor, ABC):
         if not isinstance(result, Tensor) or result.tensor_shape != (1, 0):
             return result
 
-        return PointCollection.from_array(result)
+        return PointCollection.from_tensor(result)
 
     def _matrix_transform(self, m: npt.ArrayLike) -> PointTensor:
         if self.free_indices == 0:
